@@ -377,6 +377,25 @@ def timing(rng, n):
     return s
 
 
+def timing_slice(rng, n, prop):
+    """Timers and audio ports programmed through their MMIO registers on a real Teakra::Teakra (restart together with a
+    mode / mirror / pause change in ONE control-word write, clock and enable words, FIFO writes), then
+    CoreTiming::Tick / Skip: compared with the model line by line.  Used by C15 and C16 so that the register
+    bindings of their units (mmio.cpp) and the facade wiring are inside their own checks."""
+    regenerate()
+    scripts = [timing(rng, 5 + rng.below(30)) for _ in range(n)]
+    pair = vlib.Pair("plain")
+    bad, a, b, crashes = pair.diff(scripts)
+    out = []
+    for (i, k, ia, mb) in bad[:2]:
+        small = pair.shrink(scripts[i][:k + 1])
+        ra, rb, _, _ = pair.run([small], shards=1)
+        out.append(("through the MMIO registers of a real Teakra the unit behaves differently from the model the theorems are "
+                    "about: `%s` answers %r, the model says %r" % (small[-1], ra[0][-1][:100] if ra[0] else None, rb[0][-1][:100] if rb[0] else None),
+                    {"kind": "correspondence", "script": small, "impl": ra[0], "model": rb[0], "correspondence": prop + "/bus"}, True))
+    return out, {"facade_scripts": len(scripts), "facade_disagreements": len(bad)}
+
+
 def signature(script, impl):
     out = []
     for line, r in zip(script, impl):
